@@ -34,7 +34,7 @@ CRABFLAGS := $(COMMON) $(SANC) $(INC) -include crab/support/debug.hpp
 
 # name -> source file is src/<name up to first '-'>.cpp ; the rest of the name
 # is passed as -DVERIF_VARIANT_<suffix> and -DVERIF_VARIANT="<suffix>"
-HARNESSES := h_numbers
+HARNESSES :=
 -include harnesses.mk
 
 LIBSRC := $(wildcard $(CRAB_SRC)/lib/*.cpp)
@@ -50,7 +50,7 @@ $(GEN)/crab/config.h: $(CRAB_SRC)/include/crab/config.h.cmake
 
 $(B)/lib/%.o: $(CRAB_SRC)/lib/%.cpp $(GEN)/crab/config.h
 	@mkdir -p $(dir $@)
-	$(CXX) $(CRABFLAGS) -MMD -MP -c $< -o $@
+	@echo "CXX $@"; $(CXX) $(CRABFLAGS) -MMD -MP -c $< -o $@
 
 $(B)/libcrabv.a: $(LIBOBJ)
 	@rm -f $@
@@ -75,7 +75,7 @@ hdef = $(if $(call hvar,$(1)),-DVERIF_VARIANT_$(subst -,_,$(patsubst -%,%,$(call
 
 $(B)/obj/%.o: $$(call hsrc,$$*) $(GEN)/crab/config.h
 	@mkdir -p $(dir $@)
-	$(CXX) $(CRABFLAGS) $(call hdef,$*) -MMD -MP -c $(call hsrc,$*) -o $@
+	@echo "CXX $@"; $(CXX) $(CRABFLAGS) $(call hdef,$*) -MMD -MP -c $(call hsrc,$*) -o $@
 
 $(B)/%: $(B)/obj/%.o $(B)/core/report.o $(DRIVER) $(B)/libcrabv.a
 	$(CXX) $(SANL) -o $@ $(B)/obj/$*.o $(B)/core/report.o $(DRIVER) $(B)/libcrabv.a $(DRVLIBS) -lgmp
